@@ -719,7 +719,8 @@ func openOnce(c *Ctx, id string) {
 // the version test in NewStream.
 func serialGateByVersion(c *Ctx, id string) {
 	w := c.W
-	f := w.Field("stream", "stream", "streamEndNotSupportedData")
+	sfName, _ := w.serialCloseField()
+	f := w.Field("stream", "stream", sfName)
 	c.need(f != nil, id, "stream.streamEndNotSupportedData")
 	n := 0
 	for _, fn := range w.ModFuncs {
@@ -766,7 +767,7 @@ func serialGateByVersion(c *Ctx, id string) {
 	if n < 2 {
 		c.Undecided(id, "serial-gate", 0, "only %d CloseStream sites", n)
 	}
-	fieldWriters("stream", "stream", "streamEndNotSupportedData", "the serial-close mode must follow from the server version alone", "stream.NewStream")(c, id)
+	fieldWriters("stream", "stream", sfName, "the serial-close mode must follow from the server version alone", "stream.NewStream")(c, id)
 }
 
 // opAlwaysIssued (C20): "exactly the server's outcome" presupposes that the server is asked. In every wrapper around a
@@ -1569,7 +1570,7 @@ func callsInUnit(w *World, fn *ssa.Function, suffix string) []*ssa.Function {
 // lets two closes overlap.
 func serialCloseTokens(c *Ctx, id string) {
 	w := c.W
-	dataT := w.NamedType("stream", "streamEndNotSupportedData")
+	_, dataT := w.serialCloseField()
 	c.need(dataT != nil, id, "stream.streamEndNotSupportedData")
 	var qf *types.Var
 	if st, ok := dataT.Underlying().(*types.Struct); ok {
